@@ -153,8 +153,8 @@ func mslDefault() proto.MSLOpts {
 
 func mslPreset(r *rng, p *program) proto.MSLOpts {
 	o := mslDefault()
-	switch r.intn(13) {
-	case 12:
+	switch r.intn(15) {
+	case 12, 13, 14:
 		if p != nil && len(p.info.Bindings) > 0 {
 			o.FakeMissingBindings = false
 			for i, b := range p.info.Bindings {
@@ -381,12 +381,13 @@ func missingRequired(p *program, cs []proto.Const) bool {
 // ---------------------------------------------------------------------------
 
 type builder struct {
-	sc      *proto.Scenario
-	r       *rng
-	nextObj int
-	progOf  map[int]*program // object id -> program it stems from
-	srcIdx  map[*program]int
-	family  string
+	sc       *proto.Scenario
+	r        *rng
+	nextObj  int
+	progOf   map[int]*program // object id -> program it stems from
+	srcIdx   map[*program]int
+	family   string
+	syncBias bool // the instrumented tree has synchronisation seams
 	// expectMissingErr: operations that must fail because a required override
 	// value is missing (C14 rule), keyed by position
 	expectErr map[proto.Ref]bool
@@ -505,6 +506,11 @@ func (b *builder) drawFaults(nSites int, allowPreempt bool) {
 	if r.chance(0.6) {
 		b.sc.EnvSeed = r.next() | 1
 	}
+	if r.chance(0.5) {
+		// environment at process start (overwritten with the serving
+		// process's own when the scenario runs on a serving worker)
+		b.sc.ProcEnv = r.next() | 1
+	}
 	// pool behaviour (only matters if the tree uses sync.Pool: latent seam)
 	if r.chance(0.5) {
 		b.sc.PoolSeed = r.next() | 1
@@ -518,6 +524,18 @@ func (b *builder) drawFaults(nSites int, allowPreempt bool) {
 			b.sc.Sched.StarveTask = 1 + r.intn(len(b.sc.Tasks))
 		}
 		b.sc.Sched.SyncPreempt = pick(r, []int{0, 20, 100, 300})
+		if b.syncBias {
+			// the tree uses locks/pools: switch at synchronisation points much
+			// more often, and often let one task stall while the others finish
+			// (atomicity violations need a whole operation of B inside a gap of A)
+			b.sc.Sched.SyncPreempt = pick(r, []int{100, 300, 500})
+			if r.chance(0.5) {
+				b.sc.Sched.Dist = "stall"
+			}
+			if b.sc.Sched.MeanQuantum == 0 {
+				b.sc.Sched.MeanQuantum = pick(r, []int64{50000, 5000})
+			}
+		}
 		// pre-emption right before non-local writes (expected: a handful to a
 		// few dozen extra switches per operation)
 		b.sc.Sched.WritePreempt = pick(r, []int{0, 0, 0, 5, 15, 40})
